@@ -23,6 +23,12 @@ INTERLEAVED = {'ClassDef', 'Call', 'Dict', 'Compare', 'arguments', 'MatchMapping
 FIELD_SINCE = {'type_params': 12, 'default_value': 13}
 
 
+# classes that exist only from a given minor version on: on older interpreters they are never instantiated (dummy classes), their
+# table rows are dead and are not compared for those versions
+CLASS_SINCE = {'TypeAlias': 12, 'TypeVar': 12, 'ParamSpec': 12, 'TypeVarTuple': 12, '_type_params': 12, 'TemplateStr': 14,
+               'Interpolation': 14, 'TryStar': 11}
+
+
 def present(ctx, cls: ClassTok, field: str) -> bool:
     v = FIELD_SINCE.get(field)
     return v is None or ctx.ev.pyver[1] >= v
@@ -104,9 +110,11 @@ def check_soc_vs_fields(ctx, F, rid):
     """_SYNTAX_ORDERED_CHILDREN vs FIELDS (used as R14.1a, R11.1 and R1.4)."""
     ctx.rule(rid, 'for every class of FIELDS: _SYNTAX_ORDERED_CHILDREN has an entry whose child sequence is exactly '
                        'the AST-valued fields of FIELDS, in FIELDS order (interleaved builders: field-set coverage via '
-                       'flow into `children`)', 120)
+                       'flow into `children`)', 112)
     soc = soc_sequences(ctx)
     for c in F:
+        if CLASS_SINCE.get(c.name, 0) > ctx.ev.pyver[1]:
+            continue
         want = [f for f, t in T.ast_fields_of(F, c) if present(ctx, c, f)]
         allowed_extra = {f for f, t in F[c] if t.rstrip('?*') == 'type_ignore'}
         if c not in soc:
